@@ -2,11 +2,13 @@ import RzmqModel.Driver.Wire
 import RzmqModel.Driver.Engine
 import RzmqModel.Driver.Stack
 import RzmqModel.Driver.Routing
+import RzmqModel.Driver.Conc
 open Rzmq.Driver
 
 structure DState where
   eng : Engine.St := {}
   rt : Routing.St := {}
+  cc : Conc.St := {}
 
 def dispatch (comp : String) (st : DState) (parts : List String) : DState × String :=
   if parts.head? == some "note" then (st, "note") else
@@ -15,6 +17,7 @@ def dispatch (comp : String) (st : DState) (parts : List String) : DState × Str
   | "wire" => (st, Wire.runOp parts)
   | "engine" => let r := Engine.runOp st.eng parts; ({ st with eng := r.1 }, r.2)
   | "routing" => let r := Routing.runOp st.rt parts; ({ st with rt := r.1 }, r.2)
+  | "conc" => let r := Conc.runOp st.cc parts; ({ st with cc := r.1 }, r.2)
   | _ => (st, "bad-component")
 
 partial def loop (comp : String) (h : IO.FS.Stream) (out : IO.FS.Stream) (st : DState) : IO Unit := do
